@@ -243,6 +243,7 @@ class SingleRun:
                         else:
                             self.phases_seen[gi].add(("idle", pres))
                     exc: BaseException | None = None
+                    self.resume_after_raise = False  # (an oracle may set it: the caller catches this error and trains on)
                     self.dep_before = depmon.count()
                     try:
                         self.opt.step()
@@ -251,7 +252,7 @@ class SingleRun:
                     self.steps_done += 1
                     for o in self.oracles:
                         o.post_step(self, ei, ev, exc)
-                    if exc is not None:
+                    if exc is not None and not self.resume_after_raise:
                         break  # state after a raising step is not interpreted
                 elif op == "set_hparam":
                     gi, key, value = ev["group"], ev["key"], ev["value"]
